@@ -562,19 +562,28 @@ Qed.
 Section Refinement.
   Variable hash : bytes -> Z -> bytes.
 
+  Lemma login_refines s sp rid user :
+    sys_inv s -> sys_abs s sp ->
+    sys_inv (sys_login s rid user) /\
+    sys_abs (sys_login s rid user)
+            {| sp_user := vupd (sp_user sp) rid (Some user); sp_reg := spec_drop_owner rid (sp_reg sp) |}.
+  Proof.
+    intros Hinv Habs. destruct (logout_refines s sp rid Hinv Habs) as ([Hnd Hok] & _ & Hu & Hr). unfold sys_login.
+    split; [split; [exact Hnd|exact Hok]|]. split.
+    + intros r. cbn [s_users sp_user]. unfold vupd. destruct (v_bytes_dec r rid) as [->|Hne].
+      * now rewrite vget_cons_same, v_bytes_eqb_refl.
+      * rewrite vget_cons_other by assumption. rewrite Hu. unfold vupd.
+        now rewrite (v_bytes_eqb_neq r rid Hne).
+    + intros n. cbn [sp_reg]. rewrite <- Hr. reflexivity.
+  Qed.
+
   Lemma step_refines s sp op :
     sys_inv s -> sys_abs s sp ->
     sys_inv (fst (sys_step hash s op)) /\ sys_abs (fst (sys_step hash s op)) (spec_step sp op).
   Proof.
-    intros Hinv Habs. destruct op as [rid user|rid|rid k name sk allow|rid k name sk allow|rid name|rid name ts sign ue uc cid eok|rid name ts sign pre sid dl|sid|name].
+    intros Hinv Habs. destruct op as [rid user|rid|rid k name sk allow|rid k name sk allow|rid name|rid name ts sign ue uc cid eok|rid name ts sign pre sid dl|sid|name|rid claimed answers].
     - (* SLogin *)
-      destruct (logout_refines s sp rid Hinv Habs) as ([Hnd Hok] & _ & Hu & Hr). cbn [sys_step fst spec_step].
-      split; [split; [exact Hnd|exact Hok]|]. split.
-      + intros r. cbn [s_users sp_user]. unfold vupd. destruct (v_bytes_dec r rid) as [->|Hne].
-        * now rewrite vget_cons_same, v_bytes_eqb_refl.
-        * rewrite vget_cons_other by assumption. rewrite Hu. unfold vupd.
-          now rewrite (v_bytes_eqb_neq r rid Hne).
-      + intros n. cbn [sp_reg]. rewrite <- Hr. reflexivity.
+      cbn [sys_step fst spec_step]. now apply login_refines.
     - (* SLogout *)
       destruct (logout_refines s sp rid Hinv Habs) as (Hi & _ & Hu & Hr). cbn [sys_step fst spec_step].
       split; [exact Hi|]. split; [exact Hu|exact Hr].
@@ -626,6 +635,10 @@ Section Refinement.
       apply (same_sig_refines s); try reflexivity; try assumption.
       intros n. cbn [s_vm]. replace vm' with (fst (vm_accept (s_vm s) name)) by now rewrite E.
       apply vm_accept_sig.
+    - (* SLoginVia *)
+      cbn [sys_step spec_step]. destruct (plugin_login claimed answers) as [user|]; cbn [fst].
+      + now apply login_refines.
+      + now split.
   Qed.
 
   Lemma init_refines : sys_inv sys_init /\ sys_abs sys_init spec_init.
@@ -764,7 +777,7 @@ Section Clauses.
   Theorem refused_leaves_no_state s op s' o :
     sys_step hash s op = (s', o) -> sout_refused o = true -> s' = s.
   Proof.
-    destruct op as [rid user|rid|rid k name sk allow|rid k name sk allow|rid name|rid name ts sign ue uc cid eok|rid name ts sign pre sid dl|sid|name];
+    destruct op as [rid user|rid|rid k name sk allow|rid k name sk allow|rid name|rid name ts sign ue uc cid eok|rid name ts sign pre sid dl|sid|name|rid claimed answers];
       cbn [sys_step].
     - intros [= <- <-]. discriminate.
     - intros [= <- <-]. discriminate.
@@ -786,6 +799,7 @@ Section Clauses.
       subst nh'. apply sys_eta.
     - intros [= <- <-]. discriminate.
     - destruct (vm_accept (s_vm s) name) as [vm' [c|]]; intros [= <- <-]; discriminate.
+    - destruct (plugin_login claimed answers); intros [= <- <-]; discriminate.
   Qed.
 
   Theorem refused_reaches_neither_owner_nor_backend s op s' o :
@@ -841,7 +855,9 @@ Section Clauses.
         cbn. unfold vupd. rewrite (v_bytes_eqb_neq name name0) by congruence. exact Hn.
       - split; [|exact Hnr]. destruct (sp_reg sp name0) as [r|]; [|exact Hn].
         destruct (bytes_eqb (vr_owner r) rid); [|exact Hn]. cbn. unfold vupd.
-        destruct (bytes_eqb name name0); [reflexivity|exact Hn]. }
+        destruct (bytes_eqb name name0); [reflexivity|exact Hn].
+      - split; [|exact Hnr]. destruct (plugin_login claimed answers); [|exact Hn].
+        cbn. unfold spec_drop_owner. now rewrite Hn. }
     destruct Hstep. now apply IH.
   Qed.
 
@@ -1013,9 +1029,9 @@ Section Trace.
       destruct (Hn n) as [Hn1 Hn2]. destruct (owned_in (s_pxys s) rid n).
       - specialize (Hok' n). rewrite (Hn1 eq_refl) in Hok'. destruct Hok'; congruence.
       - destruct (Hn2 eq_refl) as (_ & Hv & _). rewrite Hv in G. now exists b'. }
-    destruct op as [rid user|rid|rid k name sk allow|rid k name sk allow|rid name|rid name ts sign ue uc cid eok|rid name ts sign pre sid dl|sid|name];
+    destruct op as [rid user|rid|rid k name sk allow|rid k name sk allow|rid name|rid name ts sign ue uc cid eok|rid name ts sign pre sid dl|sid|name|rid claimed answers];
       cbn [sys_step] in E.
-    - injection E as <- <-. left. cbn [s_vm] in G'. now apply (Hlogout rid).
+    - injection E as <- <-. left. unfold sys_login in G'. cbn [s_vm] in G'. now apply (Hlogout rid).
     - injection E as <- <-. left. now apply (Hlogout rid).
     - left. destruct (vget rid (s_users s)) as [u|]; [|injection E as <- <-; now exists b'].
       destruct (vget name (s_pxys s)); [injection E as <- <-; now exists b'|].
@@ -1047,6 +1063,8 @@ Section Trace.
       * rewrite vget_vset_same in G'. injection G' as <-. cbn [vb_queue] in Hin. exists b. split; [exact G|].
         rewrite Q. now right.
       * rewrite vget_vset_other in G' by assumption. now exists b'.
+    - left. destruct (plugin_login claimed answers) as [user|]; injection E as <- <-; [|now exists b'].
+      unfold sys_login in G'. cbn [s_vm] in G'. now apply (Hlogout rid).
   Qed.
 
   Definition trace_inv (st : sys * list vevent) : Prop :=
